@@ -409,6 +409,7 @@ REQS = {
     "x_raise": ("execute_request", {"code": "1 / 0", "store_history": True}),
     "x_print": ("execute_request", {"code": "print('out-a')\nlog.info('out-b')", "store_history": True}),
     "x_nohist": ("execute_request", {"code": "'quiet'", "store_history": False}),
+    "x_raise_nohist": ("execute_request", {"code": "undefined_name_q", "store_history": False}),
     "complete": ("complete_request", {"code": "cellv", "cursor_pos": 5}),
     "isc_ok": ("is_complete_request", {"code": "x = 1"}),
     "isc_inc": ("is_complete_request", {"code": "def f():"}),
@@ -421,7 +422,7 @@ REQS = {
 }
 REPLY_TYPE = {"execute_request": "execute_reply", "complete_request": "complete_reply", "is_complete_request": "is_complete_reply",
               "kernel_info_request": "kernel_info_reply", "comm_info_request": "comm_info_reply", "history_request": "history_reply"}
-QUICK_REQS = ["x_result", "x_assign", "x_raise", "x_print", "x_nohist", "complete", "isc_inc", "kinfo", "unknown", "forged"]
+QUICK_REQS = ["x_result", "x_assign", "x_raise", "x_raise_nohist", "x_print", "x_nohist", "complete", "isc_inc", "kinfo", "unknown", "forged"]
 
 
 def check_session(res, w, seq, n_iopub):
@@ -473,7 +474,7 @@ def check_session(res, w, seq, n_iopub):
                     exp_inner = ["execute_input"]
                     if name in ("x_result", "x_nohist"):
                         exp_inner.append("execute_result")
-                    if name == "x_raise":
+                    if name in ("x_raise", "x_raise_nohist"):
                         exp_inner.append("error")
                     if name == "x_print":
                         exp_inner += ["stream", "stream"]
@@ -486,10 +487,11 @@ def check_session(res, w, seq, n_iopub):
                         er = [m for m in io if m["header"]["msg_type"] == "execute_result"][0]
                         if er["content"]["data"] != {"text/plain": "3"} or er["content"]["execution_count"] != count:
                             return fail(res, sample, "execute-result", "3", er["content"], step=i)
-                    if name == "x_raise":
+                    if name in ("x_raise", "x_raise_nohist"):
                         em = [m for m in io if m["header"]["msg_type"] == "error"][0]
-                        if em["content"].get("ename") != "ZeroDivisionError":
-                            return fail(res, sample, "error-message", "ZeroDivisionError", em["content"].get("ename"), step=i)
+                        want_e = "ZeroDivisionError" if name == "x_raise" else "NameError"
+                        if em["content"].get("ename") != want_e:
+                            return fail(res, sample, "error-message", want_e, em["content"].get("ename"), step=i)
                     if name == "x_print":
                         texts = [m["content"]["text"] for m in io if m["header"]["msg_type"] == "stream"]
                         if texts != ["out-a\n", "out-b\n"]:
@@ -500,7 +502,7 @@ def check_session(res, w, seq, n_iopub):
                 rc = shell[0]["content"]
                 if rc.get("execution_count") != count:
                     return fail(res, sample, "reply-execution-count", count, rc.get("execution_count"), step=i, name=name)
-                if (rc.get("status") == "error") != (name == "x_raise"):
+                if (rc.get("status") == "error") != (name in ("x_raise", "x_raise_nohist")):
                     return fail(res, sample, "reply-status", name, rc.get("status"), step=i)
                 if content.get("store_history", True):
                     count += 1
